@@ -71,8 +71,9 @@ class Fn:
 
 def gen_component(rng, cname, variant, with_cnt):
   """one component class; variant: 'dag' | 'cyc' (cycle reachable from a block) | 'cyc-unreached' | 'multi' (a writing
-  helper shared by two comb blocks) | 'ffslice' (helpers of update_ff blocks write slices with <<=: the top-level signal is
-  marked; elaborated and given to GenDAGPass, not simulated)"""
+  helper shared by two comb blocks) | 'ffslice' (every helper of an update_ff block writes a register with <<=: the signal is
+  marked as double-buffered through the whole call chain; whole signals only since /repo rejects a bit / slice on the left of
+  '<<=' inside a helper (fix: R12 ff-helper-part-write; that rule is exercised by the C09 / C07 operator-table stream))"""
   F = rng.choice([1, 2, 2, 3, 3, 4, 4, 5, 6]); B = rng.choice([1, 2, 2, 3, 3, 4, 5])
   if variant == 'cyc-unreached': F = max(F, 3)
   if variant == 'multi': B = max(B, 2)
@@ -151,7 +152,7 @@ def gen_component(rng, cname, variant, with_cnt):
     for n in hn:
       if owners[n] == [b]:
         helpers[n].op = b.op
-        if rng.random() < 0.6 or variant == 'ffslice': mine.append(wr(helpers[n], not isff or variant == 'ffslice'))
+        if rng.random() < 0.6 or variant == 'ffslice': mine.append(wr(helpers[n], not isff))
     group[b.name] = mine
     (ffw if isff else written).extend(mine)
   allsig = list(range(nsig))
@@ -601,11 +602,11 @@ class CGF_Top( Component ):
     s.w0 = Wire( Bits8 ); s.w1 = Wire( Bits8 ); s.w2 = Wire( Bits8 ); s.w3 = Wire( Bits8 )
     @s.func
     def lo():
-      s.w1[0:4] <<= s.w0[0:4]
+      s.w1 <<= s.w0
       hi()
     @s.func
     def hi():
-      s.w2[4:8] <<= s.w0[4:8]
+      s.w2 <<= s.w0
     @update_ff
     def up0():
       lo()
@@ -615,7 +616,7 @@ class CGF_Top( Component ):
 '''
 
 DIRECTED = [
-  (FFS_SRC, 'CGF_Top', 'ffslice'),                      # slices written through helpers of an update_ff block
+  (FFS_SRC, 'CGF_Top', 'ffslice'),                      # registers written through nested helpers of an update_ff block
   (CYC_SRC % 'fx()', 'CGC_Top', 'cyc'),                 # up1 -> fx -> fy <-> fz: rejected
   (CYC_SRC % 's.w1 + 1', 'CGC_Top', 'cyc-unreached'),   # the same cycle, reached by no block: accepted
   # the diamond of the code's comment, the helper shared by three blocks defined around it, a child with the same shape twice
